@@ -135,6 +135,8 @@ type Options struct {
 	Deadline time.Time
 	Trace    bool
 	StepWait time.Duration // watchdog for one step (a thread that never reaches its next point)
+	MaxExec  int64         // stop (incomplete) after this many executions; 0 = no cap
+	Progress func()        // called after every execution (heartbeat)
 }
 
 // Scenario builds a fresh system for one execution: it returns the thread bodies
@@ -266,6 +268,7 @@ type Stats struct {
 	Branching   int64 // decisions with more than one enabled thread
 	Deadlocks   int64
 	Incomplete  bool
+	Capped      bool // the execution cap was hit
 	BoundDone   int
 	Divergences []string
 }
@@ -294,6 +297,14 @@ func Explore(sc Scenario, o Options, onExec func(r *Result)) *Stats {
 			if !o.Deadline.IsZero() && time.Now().After(o.Deadline) {
 				complete = false
 				return
+			}
+			if o.MaxExec > 0 && st.Executions >= o.MaxExec {
+				complete = false
+				st.Capped = true
+				return
+			}
+			if o.Progress != nil {
+				o.Progress()
 			}
 			key := fmt.Sprint(prefix)
 			var r *Result
